@@ -101,7 +101,7 @@ func genC01Case(t *rapid.T) C01Case {
 				op.FaultKind = rapid.SampledFrom([]string{"error", "partial", "partial"}).Draw(t, "faultkind1")
 			}
 			if op.FaultOp == "GetResponseSigningKey" {
-				op.FaultKind = rapid.SampledFrom([]string{"error", "nil", "nokey", "nocert", "emptycert", "mismatch", "mismatch", "errval"}).Draw(t, "faultkind")
+				op.FaultKind = rapid.SampledFrom([]string{"error", "nil", "nokey", "zerokey", "nocert", "emptycert", "mismatch", "mismatch", "errval"}).Draw(t, "faultkind")
 			}
 		case "callback":
 			op.Ref = rapid.IntRange(0, 50).Draw(t, "ref")
